@@ -204,16 +204,197 @@ def run(prog: Program, ctx: Ctx) -> None:  # noqa: PLR0912,PLR0915
         ok = ok and all(("invalid" in t or "directive_parts" in t) for t, _tr in facts)
     ctx.ob("R5", key(rx, "every-raise-kept"), ok, "every well-formed `:raises X:` field is appended (the same exception type may be documented several times); "
            "the append is conditioned only on the directive being well-formed", where(rx))
-    for mod in (G, N):
-        f = prog.function(f"{mod}._read_parameters")
-        cfgp = cfg_of(f)
-        fb = [n for n in walk_no_nested(f.node) if isinstance(n, ast.Attribute) and n.attr == "annotation" and "docstring.parent.parameters" in unparse(n.value)]
-        ctx.expect_min("R5", len(fb), 1)
-        for n in fb:
-            for x in node_index(f).get(id(n), []):
-                facts = cfgp.facts_on_all_paths(x)
-                written_absent = any((not tr and ("' ' in name_with_type" in t or "annotation" in t)) or (tr and "annotation is None" in t) for t, tr in facts)
-                ctx.ob("R5", key(f, "docstring-type-wins"), written_absent, "the signature is consulted for a parameter's type only when the docstring gives none", where(f, n))
+    # (the signature-fallback clause is decided by the round-trip table, R6)
+    _roundtrip_table(prog, ctx)
+
+
+ITEM_KINDS = ["parameters", "other parameters", "raises", "warns", "attributes", "functions", "classes", "modules", "returns", "yields", "receives"]
+TITLE = {k: k.title() for k in ITEM_KINDS}
+DESCS = {
+    "one line": ["Plain description."],
+    "two paragraphs": ["First line.", "second line", "", "Second paragraph."],
+    "role on a continuation line": ["Uses the helper", ":class:`Codec` to do it."],
+    "list in the description": ["Choices:", "", "- one", "- two"],
+}
+
+
+def _google_item(kind: str, name: str | None, typ: str | None, desc: list[str]) -> list[str]:
+    if kind in ("raises", "warns"):
+        first = f"{typ}: {desc[0]}"
+    elif kind in ("functions", "classes", "modules"):
+        first = f"{name}: {desc[0]}"
+    else:
+        first = f"{name} ({typ}): {desc[0]}" if typ else f"{name}: {desc[0]}"
+    return ["    " + first, *[("        " + ln if ln else "") for ln in desc[1:]]]
+
+
+def _numpy_item(kind: str, name: str | None, typ: str | None, desc: list[str]) -> list[str]:
+    if kind in ("raises", "warns"):
+        first = f"{typ}"
+    elif kind in ("functions", "classes", "modules"):
+        first = f"{name}"
+    elif kind in ("returns", "yields", "receives"):
+        # name and type are both optional here: a bare word is the *type* (numpydoc), "name :" is the documented spelling of a name without type
+        first = f"{name} : {typ}" if typ else f"{name} :"
+    else:
+        first = f"{name} : {typ}" if typ else f"{name}"
+    return [first, *[("    " + ln if ln else "") for ln in desc]]
+
+
+def _render(style: str, sections: list[tuple[str, object]]) -> list[str]:
+    """The well-formed syntax of docs/reference/docstrings.md (Google: `Title:` + indented block after a blank line; Numpy: underlined title)."""
+    out = ["Summary."]
+    for kind, payload in sections:
+        out.append("")
+        if kind in ITEM_KINDS:
+            if style == "google":
+                out.append(TITLE[kind] + ":")
+                for item in payload:  # type: ignore[attr-defined]
+                    out += _google_item(kind, *item)
+            else:
+                out += [TITLE[kind], "-" * len(TITLE[kind])]
+                for item in payload:  # type: ignore[attr-defined]
+                    out += _numpy_item(kind, *item)
+        elif kind == "admonition":
+            title, lines = payload  # type: ignore[misc]
+            out += [title + ":", *[("    " + ln if ln else "") for ln in lines]] if style == "google" else [title, "-" * len(title), *lines]
+        elif kind == "examples":
+            out += ["Examples:", *[("    " + ln if ln else "") for ln in payload]] if style == "google" else ["Examples", "--------", *payload]  # type: ignore[misc]
+        else:
+            out += payload  # type: ignore[operator]
+    return out
+
+
+def _expected(sections: list[tuple[str, object]]) -> list:
+    out: list = [("text", "Summary.")]
+    for kind, payload in sections:
+        if kind in ITEM_KINDS:
+            items = []
+            for name, typ, desc in payload:  # type: ignore[attr-defined]
+                items.append((None if kind in ("raises", "warns") else name, typ, "\n".join(desc)))
+            out.append((kind.replace(" ", ""), items))
+        elif kind == "admonition":
+            title, lines = payload  # type: ignore[misc]
+            out.append(("admonition", title, title.lower().replace(" ", "-"), "\n".join(lines)))
+        elif kind == "examples":
+            out.append(("examples", [("text", "Do this:"), ("examples", ">>> f(1)\n2")]))
+        else:
+            out.append(("text", "\n".join(payload)))  # type: ignore[arg-type]
+    return out
+
+
+def _roundtrip_table(prog: Program, ctx: Ctx) -> None:  # noqa: PLR0912,PLR0915
+    """R6: the parsers (their ASTs, evaluated on concrete lines) applied to well-formed docstrings rendered from a model of sections."""
+    import itertools
+
+    from sa.absint import Obj, Raised, Sym
+
+    ctx.rule("R6", "round-trip table: for every ordered pair of section kinds, every description shape and the signature-fallback cases, the docstring "
+                   "rendered in the documented well-formed syntax of a style parses back to the same sections, items, annotations and descriptions "
+                   "(descriptions compared up to trailing newlines)")
+    it = Interp(prog, max_depth=40, max_steps=3_000_000)
+    it.stubs["_griffe.docstrings.utils.parse_docstring_annotation"] = lambda _i, ann, _ds, **_k: ann
+    it.stubs["_griffe.docstrings.utils.docstring_warning"] = lambda _i, *_a, **_k: None
+    fcls, dcls = prog.cls("_griffe.models.Function"), prog.cls("_griffe.models.Docstring")
+
+    def parent(params: dict | None = None, returns: object = None) -> Obj:
+        ps = {n: Obj(None, {"name": n, "annotation": a, "default": d, "__closed__": True}) for n, (a, d) in (params or {}).items()}
+        return Obj(fcls, {"parameters": ps, "returns": returns, "labels": set(), "name": "f", "path": "m.f", "__closed__": True}, label="f")
+
+    def simplify(sec: Obj) -> tuple:
+        k = sec.cls.name.replace("DocstringSection", "").lower()
+        v = sec.attrs["value"]
+        if k == "text":
+            return ("text", v.rstrip("\n"))
+        if k == "admonition":
+            return ("admonition", sec.attrs.get("title"), it.getattr(v, "annotation"), it.getattr(v, "description").rstrip("\n"))
+        if k == "examples":
+            return ("examples", [((a.name.split(".")[-1] if isinstance(a, Sym) else a), b) for a, b in v])
+        return (k, [(x.attrs.get("name") or None, x.attrs.get("annotation"), (x.attrs.get("description") or "").rstrip("\n")) for x in v])
+
+    def parse(style: str, lines: list[str], par: Obj, **options: object) -> list | str:
+        fn = prog.function(f"_griffe.docstrings.{style}.parse_{style}")
+        ds = Obj(dcls, {"lines": list(lines), "value": "\n".join(lines), "parent": par, "lineno": 1, "endlineno": len(lines)}, label="docstring")
+        it.steps = 0
+        try:
+            return [simplify(s_) for s_ in it.call(fn, ds, warn_unknown_params=False, **options)]
+        except Raised as r:
+            return f"raises {r.exc}"
+
+    def sample(kind: str, tag: str, desc: list[str] | None = None) -> tuple[str, object]:
+        d = desc or ["Plain description."]
+        if kind in ITEM_KINDS:
+            typed = kind not in ("functions", "classes", "modules")
+            return (kind, [(f"{tag}1", "int" if typed else None, d), (f"{tag}2", ("ValueError" if kind in ("raises", "warns") else None), ["Other item."])])
+        if kind == "admonition":
+            return ("admonition", ("Note", ["Be careful.", "", "Really."]))
+        if kind == "see also":
+            return ("admonition", ("See Also", ["other_func : Does the reverse."]))
+        if kind == "examples":
+            return ("examples", ["Do this:", "", ">>> f(1)", "2"])
+        return ("text", ["Free text paragraph."])
+
+    def fix_raises(sec: tuple[str, object]) -> tuple[str, object]:
+        kind, payload = sec
+        if kind in ("raises", "warns"):
+            return (kind, [(None, typ or "KeyError", d) for _n, typ, d in payload])  # type: ignore[attr-defined]
+        return sec
+
+    n = 0
+    kinds = [*ITEM_KINDS, "admonition", "see also", "examples"]
+    for style in ("google", "numpy"):
+        fn = prog.function(f"_griffe.docstrings.{style}.parse_{style}")
+        all_kinds = [*kinds, "text"] if style == "google" else kinds  # Numpy has no syntax to end an item section other than the next title
+        for k1, k2 in itertools.product(all_kinds, repeat=2):
+            if k1 == "text":
+                continue  # free text right after the summary is the same text section
+            secs = [fix_raises(sample(k1, "a")), fix_raises(sample(k2, "b"))]
+            got = parse(style, _render(style, secs), parent())
+            want = _expected(secs)
+            n += 1
+            ctx.ob("R6", f"pair|{style}|{k1} then {k2}", got == want, f"{style}: a {k1} section followed by a {k2} section parses to {got}" + ("" if got == want else f"; written: {want}"), where(fn))
+        for kind, (dname, desc) in itertools.product(ITEM_KINDS, DESCS.items()):
+            secs = [fix_raises(sample(kind, "a", desc)), sample("admonition", "")]
+            got = parse(style, _render(style, secs), parent())
+            want = _expected(secs)
+            n += 1
+            ctx.ob("R6", f"description|{style}|{kind}|{dname}", got == want, f"{style}: {kind} item with {dname}: {got}" + ("" if got == want else f"; written: {want}"), where(fn))
+        # annotations / defaults omitted from the docstring come from the signature; written ones win
+        par = parent({"x": ("SIG_X", "1"), "y": ("SIG_Y", None)}, returns="SIG_RET")
+        secs = [("parameters", [("x", "str", ["Typed in the docstring."]), ("y", None, ["Typed in the signature only."]), ("z", None, ["Unknown to the signature."])])]
+        got = parse(style, _render(style, secs), par)
+        want = [("text", "Summary."), ("parameters", [("x", "str", "Typed in the docstring."), ("y", "SIG_Y", "Typed in the signature only."), ("z", None, "Unknown to the signature.")])]
+        n += 1
+        ctx.ob("R6", f"signature|{style}|parameters", got == want, f"{style}: parameter annotations {got}" + ("" if got == want else f"; expected {want}"), where(fn))
+    # Sphinx: field lists (order of sections is not part of the property for this style)
+    fn = prog.function("_griffe.docstrings.sphinx.parse_sphinx")
+
+    def squash(t: str | None) -> str | None:
+        return " ".join(t.split()) if isinstance(t, str) else t
+
+    for (dname, desc), type_form in itertools.product(DESCS.items(), ("separate field after", "separate field before", "inline", "none")):
+        if "" in desc:
+            continue  # a blank line ends a Sphinx field
+        cont = ["    " + ln for ln in desc[1:]]
+        lines = ["Summary.", ""]
+        if type_form == "separate field before":
+            lines += [":type x: int"]
+        lines += [f":param {'int ' if type_form == 'inline' else ''}x: {desc[0]}", *cont]
+        if type_form == "separate field after":
+            lines += [":type x: int"]
+        lines += [":param y: Second parameter.", f":raises ValueError: {desc[0]}", *cont, f":returns: {desc[0]}", *cont, ":rtype: str", f":var a: {desc[0]}", *cont, ":vartype a: float"]
+        got = parse("sphinx", lines, parent({"x": ("SIG_X", None), "y": ("SIG_Y", None)}))
+        text = squash(" ".join(desc))
+        want = {"text": "Summary.", "parameters": [("x", "SIG_X" if type_form == "none" else "int", text), ("y", "SIG_Y", "Second parameter.")],
+                "raises": [(None, "ValueError", text)], "returns": [(None, "str", text)], "attributes": [("a", "float", text)]}
+        if isinstance(got, list):
+            gd: object = {g_[0]: (g_[1] if g_[0] == "text" else [(a, b, squash(c)) for a, b, c in g_[1]]) for g_ in got}
+        else:
+            gd = got
+        n += 1
+        ctx.ob("R6", f"sphinx|{dname}|type {type_form}", gd == want, f"sphinx: description with {dname}, type given as {type_form}: {gd}" + ("" if gd == want else f"; written: {want}"), where(fn))
+    ctx.expect_min("R6", n, 450)
+    ctx.analysed["roundtrip_documents"] = n
 
 
 def _arm(c: ast.Call) -> str:
